@@ -7,14 +7,15 @@
 // PART A (C13): RecursiveStreamCursor over the abstract stream view of units/streams.rs (`gens`, `flat`, `non_empty`, imported
 // mechanically; the NewValuesMatrix / ValuesMatrix callee contracts are imported with `//@ stub streams :: ..`).
 //   met_fold_start / met_iteration_end: the generations handed out are exactly `slices(stream, cursor)` = for each of the three
-//   matrices `non_empty(view).skip(cursor)` (skip saturating, as Iterator::skip is), and afterwards the cursor holds the RAW
-//   generation counts. Lemma `cursor_visits_each_value_once` (a replay harness): over met_fold_start, (appends to New,
-//   met_iteration_end)* until Exhausted, the concatenation of everything handed out equals the stream's view -- every value exactly
-//   once, in stream order -- PROVIDED the stream is `dense` (no empty generation) when the fold starts. That proviso is not
-//   decoration: FINDING F14 -- met_iteration_end leaves an empty generation behind also when it reports Exhausted, so a stream that
-//   was folded over once is not dense, the next fold's cursor (raw counts) runs ahead of slice_iter (non-empty generations) and the
-//   values appended during that fold's first round are never handed out (obligation `../leaves-dense` FAILS on the real code;
-//   replay/pending_instr_findings_end_to_end.rs shows the wrong canon end to end).
+//   matrices `non_empty(view).skip(cursor)` (skip saturating, as Iterator::skip is), every one of them non-empty, and afterwards the
+//   cursor holds the RAW generation counts; a new empty generation is opened iff the fold continues. Lemma
+//   `cursor_visits_each_value_once` (a replay harness): over met_fold_start, (appends to New, met_iteration_end)* until Exhausted,
+//   the concatenation of everything handed out equals the stream's view -- every value exactly once, in stream order -- and
+//   `new_values` is left without an empty generation, PROVIDED `new_values` has none when the fold starts (nothing is asked of
+//   previous / current values). FINDING F14 (repaired by 4f12881): met_iteration_end used to leave an empty generation behind also
+//   when it reported Exhausted, so a stream that had been folded over once broke that proviso and the next fold missed the values
+//   appended during its first round; obligation `../leaves-dense` failed then and passes now
+//   (replay/instr_findings_end_to_end.rs). What remains of the proviso is stated at the lemma.
 //
 // PART B: the executors. Ghost logs as in xor.rs / control_exec.rs: `ExecutionCtx.log` has one `Ran{id, pre, res, post}` per child
 // execution, where the snapshots hold the completeness flag and the table of registered fold states; `TraceHandler` carries the
@@ -22,21 +23,21 @@
 // speak about; `can_start_iteration` / `can_end_iteration` / `can_go_back` are IMPORTED from that unit, the transitions are its
 // ensures clauses retyped over the abstract state) and a ghost log of the fold calls interleaved with `Child{id}` entries.
 //   fold_stream: meet_fold_start, then per handed-out generation meet_iteration_start(first value) / body / meet_generation_end, then
-//   meet_fold_end -- `can_start_iteration` is PROVED at its call site (the generation end resets the FSM whatever the body did).
+//   meet_fold_end (`round_explained`, `stream_fold_spec`).
 //   next: exactly one `next()` on the enclosing fold's iterable before the body of the next iteration and one `prev()` after it;
-//   a missing fold state is the uncatchable FoldStateNotFound, never a panic. Its three trace-handler calls need
-//   `can_end_iteration` / `can_go_back`, which the code of `next` cannot establish: obligation `Next::execute` assumes them (and what
-//   the body may do to the FSM: `fsm_monotone`, proved for `next` itself), obligation `Next::execute/any-script` does not and FAILS:
-//   FINDING F13 -- a script whose `next i` sits in the body of an inner fold runs it twice per iteration and the second
-//   meet_back_iterator panics in SubTraceLoreCtorQueue::current (`back_traversal_pos - 1`), reproduced end to end.
+//   a missing fold state is the uncatchable FoldStateNotFound, never a panic. FINDING F13 (repaired by dc04e6f): the trace
+//   handler's meet_iteration_end / meet_back_iterator used to need the call-order facts `can_end_iteration` / `can_go_back`, which
+//   the code of `next` cannot establish -- a script whose `next i` sits in the body of an inner fold runs it twice per iteration
+//   and the second meet_back_iterator panicked in SubTraceLoreCtorQueue::current. Now those calls are total (an out-of-order call
+//   is the error NoFoldIterationStarted) and obligation `Next::execute/any-script` verifies with NO call-order precondition;
+//   `Next::execute/in-order` adds that in call order every fold call `next` makes before the body is in order.
 //   fold_scalar: joinable / other errors of the iterable constructors, Empty => the body is not executed; from_value / from_jvalue:
 //   non-array => the catchable FoldIteratesOverNonArray.
 //
 // Trusted part of this file: opaque data (JValue with an `arr` view, ValueAggregate, tetraplets, Provenance, LambdaAST), TiVec (only
 // its type), IterableValue = Box<dyn Iterable> as a ghost (values, cursor) pair with the contracts of foldable_next!/foldable_prev!
 // and the five `peek`s, the UncatchableError shim, Scalars (table of fold states + call log), Streams / StreamMaps lookups, the
-// TraceHandler shim described above, the leaf `Instruction::execute`, and the two harness-only stubs `fold_body_appends_to_new`,
-// `nondet`.
+// TraceHandler shim described above, the leaf `Instruction::execute`, and the harness-only stub `fold_body_appends_to_new`.
 use vstd::prelude::*;
 
 //@ lift air/src/execution_step/errors/execution_errors.rs :: macro_rules trace_to_exec_err
@@ -355,7 +356,8 @@ impl RecursiveStreamCursor {
 //@ end
 
 // C13: an iteration round ended: what was appended since the cursor was taken is handed out; the generation opened for the round is
-// dropped if nothing went into it, the cursor moves to the (raw) generation counts, a new empty generation is opened
+// dropped if nothing went into it, the cursor moves to the (raw) generation counts, and a new empty generation is opened IFF the
+// fold continues (since the F14 fix; before it, unconditionally)
 //@ lift air/src/execution_step/value_types/stream/recursive_stream.rs :: impl RecursiveStreamCursor :: fn met_iteration_end
 //@ props C01 C13
 //@ ret r
@@ -365,14 +367,15 @@ impl RecursiveStreamCursor {
             handed(r) == old(stream).slices(old(self).cursor), r is Continue <==> handed(r).len() > 0, fresh_iterables(r), dense(handed(r)),
             final(self).cursor == (StreamCursor { new_start_idx: GenerationIdx(without_empty_tail(old(stream).new_values@).len() as u32), ..old(stream).counts() }),
             final(stream).previous_values == old(stream).previous_values, final(stream).current_values == old(stream).current_values,
-            final(stream).new_values@ =~= without_empty_tail(old(stream).new_values@).push(vstd::seq::Seq::empty()),
+            final(stream).new_values@ =~= (if r is Continue { without_empty_tail(old(stream).new_values@).push(vstd::seq::Seq::empty()) }
+                                            else { without_empty_tail(old(stream).new_values@) }),
             final(stream).wf(), final(stream)@ == old(stream)@,
 //@ end
 
-// FINDING F14 (C13). `dense`: no empty generation -- then the raw counts `cursor()` returns and the positions among the non-empty
-// generations `slice_iter` skips agree, which is what lemma cursor_visits_each_value_once needs of the stream a fold starts on.
-// A fold must therefore leave the stream dense when it ends (the cursor reports Exhausted). The real met_iteration_end ends with
-// `stream.new_values().add_new_empty_generation()` unconditionally (recursive_stream.rs:76): this obligation FAILS.
+// C13 (was FINDING F14, repaired by 4f12881). `dense`: no empty generation -- then the raw counts `cursor()` returns and the
+// positions among the non-empty generations `slice_iter` skips agree, which is what lemma cursor_visits_each_value_once needs of
+// `new_values` when a fold starts. A fold must therefore leave `new_values` dense when it ends (the cursor reports Exhausted).
+// Before the fix met_iteration_end ended with an unconditional `add_new_empty_generation()` and this obligation failed.
 // (no canary of its own: same body and precondition as the obligation above, which has one)
 //@ lift air/src/execution_step/value_types/stream/recursive_stream.rs :: impl RecursiveStreamCursor :: fn met_iteration_end
 //@ name RecursiveStreamCursor::met_iteration_end/leaves-dense
@@ -444,21 +447,47 @@ pub fn fold_body_appends_to_new(stream: &mut Stream<ValueAggregate>)
         old(stream).new_values@.last().is_prefix_of(final(stream).new_values@.last()),
 { unimplemented!() }
 
+pub proof fn lemma_non_empty_flat<T>(m: vstd::seq::Seq<vstd::seq::Seq<T>>)
+    ensures flat(non_empty(m)) == flat(m), non_empty(m).len() <= m.len()
+    decreases m.len()
+{
+    let p = |g: vstd::seq::Seq<T>| g.len() != 0;
+    if m.len() == 0 {
+        assert(m.filter(p).len() == 0) by { reveal(vstd::seq::Seq::filter); }
+    } else {
+        lemma_non_empty_flat(m.drop_last());
+        assert(m == m.drop_last().push(m.last()));
+        lemma_non_empty_push(m.drop_last(), m.last());
+        if p(m.last()) {
+            lemma_flat_push(non_empty(m.drop_last()), m.last());
+        } else {
+            assert(flat(m.drop_last()) + m.last() =~= flat(m.drop_last()));
+        }
+    }
+}
+
 // C13: a fold over a stream visits every value exactly once, including the values appended while it runs.
 // Over  met_fold_start, (the body appends to New, met_iteration_end)*  until the cursor reports Exhausted, the generations handed
 // out, concatenated in the order they were handed out, ARE the stream as the peer sees it at the end (`Stream::view`): nothing is
-// handed out twice, nothing is left out, order kept; every handed-out generation is non-empty. Replaces the bounded native job
-// C13.cursor. Precondition besides the type invariants: the stream is `dense` when the fold starts -- see FINDING F14 above.
+// handed out twice, nothing is left out, order kept; every handed-out generation is non-empty; and the stream is left with no empty
+// generation in `new_values` again. Replaces the bounded native job C13.cursor.
+// WHAT REMAINS of the precondition after the F14 fix: `new_values` has no empty generation when the fold starts. Nothing is asked of
+// previous_values / current_values any more (padding generations from data are harmless: the fold does not append to them). The
+// remaining clause is (a) established by Stream::new, (b) kept by every append to New (add_to_last_generation pushes onto the last
+// generation), (c) re-established by every finished fold (`../leaves-dense`, this lemma's last postcondition) -- so it holds whenever
+// no fold over the same stream is in progress. It does NOT hold for a fold that starts INSIDE an iteration of another fold over
+// the same stream while that fold's open generation is still empty: the inner fold then misses the values appended during its own
+// first round (the outer fold still visits them). The clause is necessary: without it the lemma is false.
 //@ lemma cursor_visits_each_value_once props C13
 pub fn cursor_visits_each_value_once(stream: &mut Stream<ValueAggregate>, fuel: u32) -> (r: (bool, Ghost<vstd::seq::Seq<vstd::seq::Seq<ValueAggregate>>>))
     requires old(stream).wf(),
-        dense(old(stream).previous_values@), dense(old(stream).current_values@), dense(old(stream).new_values@),
+        dense(old(stream).new_values@),      // nothing is asked of previous_values / current_values: they may hold empty generations
         old(stream).previous_values@.len() <= u32::MAX, old(stream).current_values@.len() <= u32::MAX,
         old(stream).new_values@.len() + fuel + 1 <= u32::MAX,
     ensures
         final(stream).previous_values == old(stream).previous_values, final(stream).current_values == old(stream).current_values,
         // r.0: the cursor reported Exhausted (the fold ended) before the harness ran out of rounds
-        r.0 ==> flat(r.1@) == final(stream)@ && dense(r.1@),
+        r.0 ==> flat(r.1@) == final(stream)@ && dense(r.1@) && dense(final(stream).new_values@),
 {
     let ghost p = stream.previous_values@;
     let ghost c = stream.current_values@;
@@ -467,40 +496,37 @@ pub fn cursor_visits_each_value_once(stream: &mut Stream<ValueAggregate>, fuel: 
     let mut state = cursor.met_fold_start(stream);
     let ghost mut all = handed(state);
     proof {
-        lemma_non_empty_id(p); lemma_non_empty_id(c); lemma_non_empty_id(n0);
-        assert(skip_sat(p, 0) =~= p); assert(skip_sat(c, 0) =~= c); assert(skip_sat(n0, 0) =~= n0);
-        assert(all == p + c + n0);
-        lemma_flat_concat(p + c, n0);
-        lemma_flat_concat(p, c);
-        assert forall|i: int| 0 <= i < all.len() implies (#[trigger] all[i]).len() != 0 by {
-            if i < p.len() { assert(all[i] == p[i]); }
-            else if i < p.len() + c.len() { assert(all[i] == c[i - p.len()]); }
-            else { assert(all[i] == n0[i - p.len() - c.len()]); }
-        }
+        lemma_non_empty_flat(p); lemma_non_empty_flat(c); lemma_non_empty_id(n0);
+        assert(skip_sat(non_empty(p), 0) =~= non_empty(p)); assert(skip_sat(non_empty(c), 0) =~= non_empty(c)); assert(skip_sat(n0, 0) =~= n0);
+        assert(all == non_empty(p) + non_empty(c) + n0);
+        lemma_flat_concat(non_empty(p) + non_empty(c), n0);
+        lemma_flat_concat(non_empty(p), non_empty(c));
     }
     if !state.should_continue() {
         proof {
             assert(all.len() == 0);
-            assert(p.len() == 0 && c.len() == 0 && n0.len() == 0);
+            assert(n0.len() == 0);
+            assert(flat(n0) =~= vstd::seq::Seq::<ValueAggregate>::empty());
         }
         return (true, Ghost(all));
     }
     proof {
         assert(stream.new_values@.drop_last() =~= n0);
-        lemma_flat_push(n0, vstd::seq::Seq::<ValueAggregate>::empty());
     }
     let mut fuel = fuel;
     while state.should_continue() && fuel > 0
         invariant
             stream.wf(), stream.previous_values@ == p, stream.current_values@ == c,
             stream.previous_values == old(stream).previous_values, stream.current_values == old(stream).current_values,
-            dense(p), dense(c), p.len() <= u32::MAX, c.len() <= u32::MAX,
-            stream.new_values@.len() > 0, stream.new_values@.len() + fuel <= u32::MAX,
-            dense(stream.new_values@.drop_last()), stream.new_values@.last().len() == 0,
-            cursor.cursor == (StreamCursor { new_start_idx: GenerationIdx((stream.new_values@.len() - 1) as u32), ..stream.counts() }),
-            flat(all) == flat(p) + flat(c) + flat(stream.new_values@.drop_last()),
+            p.len() <= u32::MAX, c.len() <= u32::MAX,
+            stream.new_values@.len() + fuel <= u32::MAX,
             dense(all),
-            !(state is Continue) ==> flat(all) == stream@,
+            // while the fold continues: one open (still empty) generation after the closed, dense ones; the cursor stands at it
+            state is Continue ==> stream.new_values@.len() > 0 && dense(stream.new_values@.drop_last()) && stream.new_values@.last().len() == 0
+                && cursor.cursor == (StreamCursor { new_start_idx: GenerationIdx((stream.new_values@.len() - 1) as u32), ..stream.counts() })
+                && flat(all) == flat(p) + flat(c) + flat(stream.new_values@.drop_last()),
+            // when it is over: everything was handed out and no empty generation is left behind
+            !(state is Continue) ==> flat(all) == stream@ && dense(stream.new_values@),
         decreases fuel
     {
         fold_body_appends_to_new(stream);
@@ -509,12 +535,13 @@ pub fn cursor_visits_each_value_once(stream: &mut Stream<ValueAggregate>, fuel: 
         let ghost all0 = all;
         proof {
             assert(stream.new_values@ =~= nn.push(last));
-            lemma_non_empty_id(p); lemma_non_empty_id(c); lemma_non_empty_id(nn);
+            lemma_non_empty_flat(p); lemma_non_empty_flat(c); lemma_non_empty_id(nn);
             lemma_non_empty_push(nn, last);
         }
         state = cursor.met_iteration_end(stream);
         proof {
-            // prev / current: the cursor sits at their (raw = non-empty) length: nothing; new: exactly this round's generation, if any
+            // prev / current: the cursor sits at their raw length >= the number of their non-empty generations: nothing;
+            // new: exactly this round's generation, if any
             let h = handed(state);
             assert(h =~= (if last.len() != 0 { vstd::seq::Seq::empty().push(last) } else { vstd::seq::Seq::empty() })) by {
                 if last.len() != 0 {
@@ -531,15 +558,16 @@ pub fn cursor_visits_each_value_once(stream: &mut Stream<ValueAggregate>, fuel: 
                 assert(flat(h) =~= last);
                 lemma_flat_push(nn, last);
                 assert((flat(p) + flat(c) + flat(nn)) + last =~= flat(p) + flat(c) + (flat(nn) + last));
+                // the fold continues: a new open generation behind n1
+                assert(stream.new_values@.drop_last() =~= n1);
             } else {
                 assert(nn.push(last).drop_last() =~= nn);
                 assert(n1 == nn);
                 assert(flat(h) =~= vstd::seq::Seq::<ValueAggregate>::empty());
                 assert(flat(all0) + flat(h) =~= flat(all0));
+                // the fold is over: exactly the closed generations are left
+                assert(stream.new_values@ =~= nn);
             }
-            assert(stream.new_values@.drop_last() =~= n1);
-            lemma_flat_push(n1, vstd::seq::Seq::<ValueAggregate>::empty());
-            assert(flat(n1) + vstd::seq::Seq::<ValueAggregate>::empty() =~= flat(n1));
             assert forall|i: int| 0 <= i < all.len() implies (#[trigger] all[i]).len() != 0 by {
                 if i < all0.len() { assert(all[i] == all0[i]); } else { assert(all[i] == h[i - all0.len()]); }
             }
@@ -835,26 +863,42 @@ impl FoldFSM {
     pub open spec fn started(&self) -> bool { self.back_traversal_started }
 }
 //@ import-spec fold_fsm :: can_start_iteration can_end_iteration can_go_back
-// the transitions: the ensures clauses unit fold_fsm proves for the real FoldFSM methods, restricted to (q, pos, started)
+//@ import-spec lore_ctor :: next_state
+// the transitions: the ensures clauses unit fold_fsm proves for the real FoldFSM methods, restricted to (q, pos, started). Since the
+// F13 fix all of them are TOTAL (no call-order precondition); what fold_fsm proves only in call order (under `can_end_iteration` /
+// `can_go_back` and its struct invariant, which follows in call order) is stated here under the same call-order antecedent.
 pub open spec fn fsm_fresh(f: FoldFSM) -> bool { f.q().len() == 0 && f.pos() == 0 && !f.started() }
+// there is an iteration under the cursor (`SubTraceLoreCtorQueue::current()` is Some)
+pub open spec fn has_current(f: FoldFSM) -> bool { 1 <= f.pos() <= f.q().len() }
 pub open spec fn fsm_iteration_started(f0: FoldFSM, f1: FoldFSM, ok: bool) -> bool {
     &&& f1.started() == f0.started()
     &&& !ok ==> f1.q() == f0.q() && f1.pos() == f0.pos()
     &&& ok ==> f1.q().len() == f0.q().len() + 1 && f1.pos() == f0.pos() + 1
             && (forall|i: int| 0 <= i < f0.q().len() ==> f1.q()[i] == f0.q()[i]) && f1.q().last().ctor.st() is BeforeStarted
 }
-pub open spec fn fsm_iteration_ended(f0: FoldFSM, f1: FoldFSM) -> bool {
+pub open spec fn fsm_iteration_ended(f0: FoldFSM, f1: FoldFSM, ok: bool) -> bool {
     &&& f1.started() == f0.started() && f1.pos() == f0.pos() && f1.q().len() == f0.q().len()
     &&& forall|i: int| 0 <= i < f0.q().len() && i != f0.pos() - 1 ==> f1.q()[i] == f0.q()[i]
-    &&& f1.q()[f0.pos() - 1].ctor.st() is BeforeCompleted
+    // no iteration under the cursor: NoFoldIterationStarted, nothing changed
+    &&& ok == has_current(f0)
+    &&& !ok ==> f1.q() == f0.q()
+    // otherwise that iteration's ctor steps on, whatever state it was in; in call order that is BeforeStarted -> BeforeCompleted
+    &&& ok ==> f1.q()[f0.pos() - 1].ctor.st() == next_state(f0.q()[f0.pos() - 1].ctor.st())
 }
+// no iteration to turn round at / to come back to: NoFoldIterationStarted
+pub open spec fn no_iteration_to_go_back(f: FoldFSM) -> bool { !has_current(f) || (f.started() && f.pos() == 1) }
 pub open spec fn fsm_went_back(f0: FoldFSM, f1: FoldFSM, ok: bool) -> bool {
     &&& f1.q().len() == f0.q().len()
+    &&& no_iteration_to_go_back(f0) ==> !ok
+    &&& !has_current(f0) ==> f1.q() == f0.q() && f1.pos() == f0.pos() && f1.started() == f0.started()
     &&& !f0.started() ==> f1.pos() == f0.pos() && (ok ==> f1.started())
-    &&& f0.started() ==> f1.pos() == f0.pos() - 1 && f1.started()
-    &&& f1.q()[f1.pos() - 1].ctor.st() is AfterStarted
-    &&& f0.started() ==> f1.q()[f0.pos() - 1].ctor.st() is AfterCompleted
-    &&& forall|i: int| 0 <= i < f0.q().len() && i != f1.pos() - 1 && i != f0.pos() - 1 ==> f1.q()[i] == f0.q()[i]
+    &&& (f0.started() && has_current(f0)) ==> f1.pos() == f0.pos() - 1 && f1.started()
+    // in call order (fold_fsm: under its struct invariant, which follows in call order)
+    &&& can_go_back(f0) ==> {
+            &&& f1.q()[f1.pos() - 1].ctor.st() is AfterStarted
+            &&& f0.started() ==> f1.q()[f0.pos() - 1].ctor.st() is AfterCompleted
+            &&& forall|i: int| 0 <= i < f0.q().len() && i != f1.pos() - 1 && i != f0.pos() - 1 ==> f1.q()[i] == f0.q()[i]
+        }
 }
 pub enum TEv {
     FoldStart { id: int, ok: bool },
@@ -883,10 +927,10 @@ impl TraceHandler {
                 && others_same(old(self).folds@, final(self).folds@, fold_id as int),
     { unimplemented!() }
     // real (handler.rs:151): fsm_keeper.fold_mut(fold_id)? -- FoldFSMNotFound, no panic -- then FoldFSM::meet_iteration_start, whose
-    // precondition in unit fold_fsm is the call-order fact `can_start_iteration`
+    // only precondition about the FSM in unit fold_fsm is the queue's own invariant pos <= len (no call-order fact any more)
     #[verifier::external_body]
     pub fn meet_iteration_start(&mut self, fold_id: u32, value_pos: TracePos) -> (r: TraceHandlerResult<()>)
-        requires old(self).folds@.contains_key(fold_id as int) ==> can_start_iteration(old(self).folds@[fold_id as int])
+        requires old(self).folds@.contains_key(fold_id as int) ==> old(self).folds@[fold_id as int].pos() <= old(self).folds@[fold_id as int].q().len()
         ensures final(self).log@ == old(self).log@.push(TEv::IterationStart { id: fold_id as int, pos: value_pos, ok: r is Ok }),
             others_same(old(self).folds@, final(self).folds@, fold_id as int),
             final(self).folds@.contains_key(fold_id as int) == old(self).folds@.contains_key(fold_id as int),
@@ -894,23 +938,21 @@ impl TraceHandler {
             old(self).folds@.contains_key(fold_id as int) ==>
                 fsm_iteration_started(old(self).folds@[fold_id as int], final(self).folds@[fold_id as int], r is Ok),
     { unimplemented!() }
-    // real (handler.rs:158): FoldFSM::meet_iteration_end -- `self.ctor_queue.current()` = `queue[back_traversal_pos - 1]`:
-    // the call-order fact `can_end_iteration`
+    // real (handler.rs:158): FoldFSM::meet_iteration_end, TOTAL since the F13 fix (`current()` is an Option): no precondition;
+    // NoFoldIterationStarted (propagated as an error) exactly when no iteration is under the cursor
     #[verifier::external_body]
     pub fn meet_iteration_end(&mut self, fold_id: u32) -> (r: TraceHandlerResult<()>)
-        requires old(self).folds@.contains_key(fold_id as int) ==> can_end_iteration(old(self).folds@[fold_id as int])
         ensures final(self).log@ == old(self).log@.push(TEv::IterationEnd { id: fold_id as int, ok: r is Ok }),
             others_same(old(self).folds@, final(self).folds@, fold_id as int),
             final(self).folds@.contains_key(fold_id as int) == old(self).folds@.contains_key(fold_id as int),
-            r is Ok <==> old(self).folds@.contains_key(fold_id as int),
+            !old(self).folds@.contains_key(fold_id as int) ==> r is Err,
             old(self).folds@.contains_key(fold_id as int) ==>
-                fsm_iteration_ended(old(self).folds@[fold_id as int], final(self).folds@[fold_id as int]),
+                fsm_iteration_ended(old(self).folds@[fold_id as int], final(self).folds@[fold_id as int], r is Ok),
     { unimplemented!() }
-    // real (handler.rs:165): FoldFSM::meet_back_iterator -- `current()` and, once the back traversal runs, `traverse_back()`
-    // (`back_traversal_pos -= 1`) followed by `current()` again: the call-order fact `can_go_back`
+    // real (handler.rs:165): FoldFSM::meet_back_iterator, TOTAL since the F13 fix (`current()` an Option at both sites,
+    // `traverse_back()` saturating): no precondition; NoFoldIterationStarted exactly when `no_iteration_to_go_back`
     #[verifier::external_body]
     pub fn meet_back_iterator(&mut self, fold_id: u32) -> (r: TraceHandlerResult<()>)
-        requires old(self).folds@.contains_key(fold_id as int) ==> can_go_back(old(self).folds@[fold_id as int])
         ensures final(self).log@ == old(self).log@.push(TEv::BackIterator { id: fold_id as int, ok: r is Ok }),
             others_same(old(self).folds@, final(self).folds@, fold_id as int),
             final(self).folds@.contains_key(fold_id as int) == old(self).folds@.contains_key(fold_id as int),
@@ -1018,11 +1060,7 @@ impl ExecutionCtx<'_> {
 //@ end
 }
 
-// what a child execution may do to the FoldFSMs of the folds it runs inside (ASSUMED of the opaque child, PROVED for `next`, the
-// only instruction that moves a fold's cursor): no fold disappears and no cursor moves back below where it was
-pub open spec fn fsm_monotone(a: Folds, b: Folds) -> bool {
-    forall|k: int| #![trigger a.contains_key(k)] #![trigger b.contains_key(k)] a.contains_key(k) ==> b.contains_key(k) && b[k].pos() >= a[k].pos()
-}
+// what a child execution may do (ASSUMED of the opaque child, PROVED for `next`):
 // ... to the registered fold states: a state is registered once, by `fold`, with its type; afterwards only its iterable's cursor
 // and its back flag change (next.rs) -- a name that stays registered keeps its type (the nested fold that would re-register it
 // is the uncatchable MultipleIterableValues)
@@ -1057,7 +1095,6 @@ impl<'i> Instruction<'i> {
             final(exec_ctx).log@ == old(exec_ctx).log@.push(
                 Ran { id: self.id(), pre: old(exec_ctx).snap(), res: r, post: final(exec_ctx).snap() }),
             final(trace_ctx).log@ == old(trace_ctx).log@.push(TEv::Child { id: self.id() }),
-            fsm_monotone(old(trace_ctx).folds@, final(trace_ctx).folds@),
             streams_kept(*old(exec_ctx), *final(exec_ctx)),
             iters_types_kept(old(exec_ctx).iters(), final(exec_ctx).iters()),
     { unimplemented!() }
@@ -1074,7 +1111,7 @@ pub open spec fn fold_spec(state: FoldAbs, name: Chars, body: int, c0: Execution
     } else {
         let ran = c1.log@[c0.log@.len() as int];
         &&& c1.log@ =~= c0.log@.push(ran) && ran.id == body
-        &&& t1.log@ =~= t0.log@.push(TEv::Child { id: body }) && fsm_monotone(t0.folds@, t1.folds@)
+        &&& t1.log@ =~= t0.log@.push(TEv::Child { id: body })
         // entered with the state registered (and the scalars told that a fold starts) ...
         &&& ran.pre == (Snap { complete: c0.subgraph_completeness, iters: c0.iters().insert(name, state), sevs: c0.scalars.evs@.push(SEv::FoldStart) })
         // ... left with it removed (and the scalars told that the fold ends): on every path
@@ -1410,7 +1447,6 @@ pub open spec fn fsm_ready(folds: Folds, fid: u32) -> bool { folds.contains_key(
 //@ before "let value = match iterable.peek() {"
         let ghost t_in = trace_ctx.log@;
         let ghost c_in = exec_ctx.log@;
-        let ghost f_in = trace_ctx.folds@;
         proof {
             assert(iterables@[0] == old_iterables[k]);
             assert(its[k] == *old_iterables[k]);
@@ -1434,12 +1470,6 @@ pub open spec fn fsm_ready(folds: Folds, fid: u32) -> bool { folds.contains_key(
             assert(c.drop_last() =~= c_in.skip(m0));
             assert(trace_ctx.log@.take(n0) =~= t_in.take(n0));
             assert(exec_ctx.log@.take(m0) =~= c_in.take(m0));
-            // no fold disappeared, no cursor moved back: the other folds through `others_same` / the body's `fsm_monotone`,
-            // this fold because its cursor was 0 when the round started
-            assert forall|j: int| #![trigger old(trace_ctx).folds@.contains_key(j)] old(trace_ctx).folds@.contains_key(j) implies
-                trace_ctx.folds@.contains_key(j) && trace_ctx.folds@[j].pos() >= old(trace_ctx).folds@[j].pos() by {
-                assert(f_in.contains_key(j) && f_in[j].pos() >= old(trace_ctx).folds@[j].pos());
-            }
         }
 //@ before "for iterable in iterables"
     let ghost old_iterables = iterables@;
@@ -1459,7 +1489,6 @@ pub open spec fn fsm_ready(folds: Folds, fid: u32) -> bool { folds.contains_key(
             n0 <= trace_ctx.log@.len(), m0 <= exec_ctx.log@.len(),
             trace_ctx.log@.take(n0) =~= old(trace_ctx).log@, exec_ctx.log@.take(m0) =~= old(exec_ctx).log@,
             iters_wf(exec_ctx.iters()), streams_kept(*old(exec_ctx), *exec_ctx),
-            fsm_monotone(old(trace_ctx).folds@, trace_ctx.folds@),
             fsm_ready(trace_ctx.folds@, ingredients.fold_id),
             round_explained(trace_ctx.log@.skip(n0), exec_ctx.log@.skip(m0), its, k, ingredients.fold_id,
                 ingredients.iterable_name@, ingredients.instruction.id(), opt_id(ingredients.last_instruction)),
@@ -1488,7 +1517,6 @@ pub open spec fn fsm_ready(folds: Folds, fid: u32) -> bool { folds.contains_key(
         // "It must return only uncatchable errors"
         r matches Err(e) ==> !catchable(e),
         iters_wf(final(exec_ctx).iters()), streams_kept(*old(exec_ctx), *final(exec_ctx)),
-        fsm_monotone(old(trace_ctx).folds@, final(trace_ctx).folds@),
 //@ end
 
 // an event of one round of fold `fid` with body `head`
@@ -1671,13 +1699,14 @@ pub open spec fn trace_same(t0: TraceHandler, t1: TraceHandler) -> bool { t1 == 
 pub open spec fn fold_fsm_of(t: TraceHandler, ty: IterableType) -> Option<FoldFSM> {
     match ty { IterableType::Stream(fid) => if t.folds@.contains_key(fid as int) { Some(t.folds@[fid as int]) } else { None }, IterableType::Scalar => None }
 }
-// the three helpers: nothing for a scalar fold; for a stream fold exactly the one trace-handler call, whose error is a TraceError
+// the three helpers: nothing for a scalar fold; for a stream fold exactly the one trace-handler call, whose error is a TraceError.
+// No call-order precondition (the F13 fix made the trace handler's fold calls total).
 //@ lift air/src/execution_step/instructions/next.rs :: fn maybe_meet_iteration_start
 //@ props C01 C13
 //@ ret r
 //@ spec
     requires fold_state.iterable.vals@.len() > 0, fold_state.iterable.wf(),       // `peek().expect(PEEK_ALLOWED_ON_NON_EMPTY)`
-        fold_fsm_of(*old(trace_ctx), fold_state.iterable_type) matches Some(f) ==> can_start_iteration(f),
+        fold_fsm_of(*old(trace_ctx), fold_state.iterable_type) matches Some(f) ==> f.pos() <= f.q().len(),     // the queue's own invariant
     ensures match fold_state.iterable_type {
         IterableType::Scalar => r is Ok && *final(trace_ctx) == *old(trace_ctx),
         IterableType::Stream(fid) => {
@@ -1694,15 +1723,14 @@ pub open spec fn fold_fsm_of(t: TraceHandler, ty: IterableType) -> Option<FoldFS
 //@ props C01 C13
 //@ ret r
 //@ spec
-    requires fold_fsm_of(*old(trace_ctx), fold_state.iterable_type) matches Some(f) ==> can_end_iteration(f),
     ensures match fold_state.iterable_type {
         IterableType::Scalar => r is Ok && *final(trace_ctx) == *old(trace_ctx),
         IterableType::Stream(fid) => {
             &&& final(trace_ctx).log@ == old(trace_ctx).log@.push(TEv::IterationEnd { id: fid as int, ok: r is Ok })
             &&& others_same(old(trace_ctx).folds@, final(trace_ctx).folds@, fid as int)
             &&& final(trace_ctx).folds@.contains_key(fid as int) == old(trace_ctx).folds@.contains_key(fid as int)
-            &&& r is Ok <==> old(trace_ctx).folds@.contains_key(fid as int)
-            &&& old(trace_ctx).folds@.contains_key(fid as int) ==> fsm_iteration_ended(old(trace_ctx).folds@[fid as int], final(trace_ctx).folds@[fid as int])
+            &&& !old(trace_ctx).folds@.contains_key(fid as int) ==> r is Err
+            &&& old(trace_ctx).folds@.contains_key(fid as int) ==> fsm_iteration_ended(old(trace_ctx).folds@[fid as int], final(trace_ctx).folds@[fid as int], r is Ok)
             &&& r matches Err(e) ==> is_trace_error(e)
         }
     }
@@ -1711,7 +1739,6 @@ pub open spec fn fold_fsm_of(t: TraceHandler, ty: IterableType) -> Option<FoldFS
 //@ props C01 C13
 //@ ret r
 //@ spec
-    requires fold_fsm_of(*old(trace_ctx), fold_state.iterable_type) matches Some(f) ==> can_go_back(f),
     ensures match fold_state.iterable_type {
         IterableType::Scalar => r is Ok && *final(trace_ctx) == *old(trace_ctx),
         IterableType::Stream(fid) => {
@@ -1725,10 +1752,11 @@ pub open spec fn fold_fsm_of(t: TraceHandler, ty: IterableType) -> Option<FoldFS
     }
 //@ end
 
-// THE CALL-ORDER ASSUMPTION about where a `next` is executed (what units/fold_fsm.rs calls `can_end_iteration`): if its fold is a
-// stream fold whose FSM the trace handler knows, an iteration of that fold is open and the back traversal has not started --
-// i.e. this is the first `next` reached in the body of the iteration that was started last. The parser enforces "one textual
-// `next` per fold"; it does NOT enforce this (FINDING F13, obligation `Next::execute/any-script`).
+// THE CALL ORDER in which a `next` is normally executed (what units/fold_fsm.rs calls `can_end_iteration`): if its fold is a stream
+// fold whose FSM the trace handler knows, an iteration of that fold is open and the back traversal has not started -- i.e. this is
+// the first `next` reached in the body of the iteration that was started last. The parser enforces "one textual `next` per fold";
+// it does NOT enforce this (F13: `(fold $s i (fold #t j (par (next j) (next i))))`). Since the F13 fix it is no precondition of
+// anything: `Next::execute/any-script` verifies without it; `Next::execute/in-order` shows what it buys.
 pub open spec fn next_in_order(c: ExecutionCtx, t: TraceHandler, name: Chars) -> bool {
     c.iters().contains_key(name) ==> (fold_fsm_of(t, c.iters()[name].ty) matches Some(f) ==> can_end_iteration(f))
 }
@@ -1808,40 +1836,48 @@ pub proof fn lemma_types_kept_trans(a: Iters, b: Iters, c: Iters, k: Chars)
 }
 
 impl<'i> Next<'i> {
-// C01 + C13 under the call-order assumption `next_in_order`
+// C01 + C13 for ANY script: no call-order precondition (was FINDING F13: before dc04e6f this obligation failed at next.rs:37/41/65/75,
+// the second `next i` of an iteration panicked in SubTraceLoreCtorQueue::current; now that call returns NoFoldIterationStarted, which
+// reaches the script as the uncatchable TraceError -- `is_trace_error` in `next_spec`)
 //@ lift air/src/execution_step/instructions/next.rs :: impl<'i> super::ExecutableInstruction<'i> for Next<'i> :: fn execute
-//@ name Next::execute
+//@ name Next::execute/any-script
 //@ props C01 C13
 //@ ret r
 //@ after #0 "let fold_state = exec_ctx.scalars.get_iterable_mut(iterator_name)?;"
         proof { lemma_update_entry(old(exec_ctx).scalars.iterables@, self.iterator.name@); }
-//@ before "let next_instr = fold_state.instr_head.clone();"
-        let ghost t_mid = *trace_ctx;
 //@ spec
-        requires iters_wf(old(exec_ctx).iters()), next_in_order(*old(exec_ctx), *old(trace_ctx), self.iterator.name@)
+        requires iters_wf(old(exec_ctx).iters())
         ensures next_spec(*self, *old(exec_ctx), *final(exec_ctx), *old(trace_ctx), *final(trace_ctx), r),
             // what every instruction must leave intact (assumed of the body, proved here)
             iters_wf(final(exec_ctx).iters()), iters_types_kept(old(exec_ctx).iters(), final(exec_ctx).iters()),
-            fsm_monotone(old(trace_ctx).folds@, final(trace_ctx).folds@), streams_kept(*old(exec_ctx), *final(exec_ctx)),
+            streams_kept(*old(exec_ctx), *final(exec_ctx)),
 //@ end
 
-// C01 for ANY script: no call-order assumption. FAILS at `trace_ctx.meet_iteration_end` (can_end_iteration) and at the
-// `trace_ctx.meet_back_iterator` calls (can_go_back): FINDING F13, a reachable panic (see the header and
-// replay/pending_instr_findings_end_to_end.rs).
-// (no canary of its own: same body as the obligation above, weaker precondition)
+// ... and in call order (`next_in_order`): every fold call this `next` makes on the trace handler BEFORE the body of the next
+// iteration runs is made in the order units/fold_fsm.rs's C10 results need -- meet_iteration_end on an open iteration, then either
+// the turn-round (`can_go_back`) or meet_iteration_start (`can_start_iteration`) -- the three assertions below. (The
+// meet_back_iterator AFTER the body is in order iff the body's own `next` was: lemma iteration_start_opens_iteration is the step.)
+// (no canary of its own: same body as the obligation above, stronger precondition)
 //@ lift air/src/execution_step/instructions/next.rs :: impl<'i> super::ExecutableInstruction<'i> for Next<'i> :: fn execute
-//@ name Next::execute/any-script
-//@ props C01
+//@ name Next::execute/in-order
+//@ props C13
 //@ ret r
+//@ sig 1 "fn execute" => "fn execute__in_order"
+//@ no-canary
 //@ after #0 "let fold_state = exec_ctx.scalars.get_iterable_mut(iterator_name)?;"
         proof { lemma_update_entry(old(exec_ctx).scalars.iterables@, self.iterator.name@); }
-//@ before "let next_instr = fold_state.instr_head.clone();"
-        let ghost t_mid = *trace_ctx;
-//@ sig 1 "fn execute" => "fn execute__any_script"
-//@ no-canary
+        let ghost ty = fold_state.iterable_type;
+        proof {
+            assert(old(exec_ctx).iters()[self.iterator.name@] == fold_state.abs());
+            assert(fold_fsm_of(*trace_ctx, ty) matches Some(f) ==> can_end_iteration(f));
+        }
+//@ before #0 "maybe_meet_back_iterator(self, fold_state, trace_ctx)?;"
+            proof { assert(fold_fsm_of(*trace_ctx, ty) matches Some(f) ==> can_go_back(f)); }
+//@ before "maybe_meet_iteration_start(self, fold_state, trace_ctx)?;"
+        proof { assert(fold_fsm_of(*trace_ctx, ty) matches Some(f) ==> can_start_iteration(f)); }
 //@ spec
-        requires iters_wf(old(exec_ctx).iters())
-        ensures iters_wf(final(exec_ctx).iters())
+        requires iters_wf(old(exec_ctx).iters()), next_in_order(*old(exec_ctx), *old(trace_ctx), self.iterator.name@)
+        ensures next_spec(*self, *old(exec_ctx), *final(exec_ctx), *old(trace_ctx), *final(trace_ctx), r),
 //@ end
 }
 
@@ -1851,7 +1887,7 @@ impl<'i> Next<'i> {
 // can start, and the turn-round can be made
 //@ lemma iteration_start_opens_iteration props C13 C01
 proof fn iteration_start_opens_iteration(f0: FoldFSM, f1: FoldFSM, f2: FoldFSM)
-    requires can_start_iteration(f0), fsm_iteration_started(f0, f1, true), fsm_iteration_ended(f1, f2),
+    requires can_start_iteration(f0), fsm_iteration_started(f0, f1, true), fsm_iteration_ended(f1, f2, true),
         f0.pos() == f0.q().len(),          // forward phase: the cursor is at the end of the queue (fsm_fresh; kept by both transitions)
     ensures can_end_iteration(f1), can_start_iteration(f2), can_go_back(f2), f1.pos() == f1.q().len(), f2.pos() == f2.q().len()
 {
